@@ -206,6 +206,10 @@ func (fr *Frame) callFn(st *State, site ssa.Instruction, fn *ssa.Function, args 
 		}
 	}
 	if v.opaqueOK(fn) {
+		if traceOn {
+			c := v.lookupContract(fn)
+			fmt.Fprintf(os.Stderr, "trace: opaque call %s (contract found: %v)\n", key, c != nil)
+		}
 		res = fr.opaqueCall(st, site, fn, args)
 		if fr.anchorsOn() {
 			fr.bindCallResultSig(st, res, fn.Signature)
